@@ -16,7 +16,13 @@ def contracts_on_expressions(tier='quick', seed=0, qualnames=(), modules=(), arg
     for m in modules:
         importlib.import_module(m)
     n = n or (1500 if tier == 'thorough' else 250)
-    nodes = corpus.all_nodes(corpus.expressions(seed, n, 4 if tier == 'thorough' else 3))
+    exprs = list(corpus.expressions(seed, n, 4 if tier == 'thorough' else 3))
+    # predicates stored in events: after the alias rewrite the same object can sit at several positions
+    for ev in _events_of(corpus.properties(seed)) + corpus.api_events():
+        p = getattr(ev, 'predicate', None)
+        if p is not None and hasattr(p, 'expression'):
+            exprs.append(p.expression)
+    nodes = corpus.all_nodes(exprs)
     names = sorted({'A', 'B', 'i', 'j', 'X', 'zz'})
     cases = 0
     violations = []
@@ -147,8 +153,15 @@ def contracts_on_events(tier='quick', seed=0, qualnames=(), modules=()):
     from bounded import corpus
     for m in modules:
         importlib.import_module(m)
-    events = _events_of(corpus.properties(seed))
+    events = _events_of(corpus.properties(seed)) + corpus.api_events()
     preds = [e.predicate for e in events if hasattr(e, 'predicate')]
+    from hpl.ast.predicates import HplPredicateExpression
+    for e in corpus.expressions(seed, 200, 3):
+        if e.can_be_bool:
+            try:
+                preds.append(HplPredicateExpression(e))
+            except Exception:
+                pass
     names = ['A', 'B', 'X', 'zz']
     cases = 0
     violations, faults, samples = [], [], []
